@@ -12,9 +12,12 @@
      workers/sourcerunner  queued StartCheckpoint of a runner
 
    Nodes are <<"op", i>> and <<"sr", i>>, i \in 1..N; registry order = index
-   order.  Time: `now` counts deadline periods; a heartbeat taken at hb is
-   expired iff hb < now (the replayer advances the frozen clock by more than the
-   heartbeat deadline per Advance).
+   order.  Time: hb[n] is the AGE class of n's last heartbeat (2 = in this
+   period, 1 = in the previous one, 0 = older = expired, -1 = no entry; `now`
+   is the constant 2); Advance ages every entry by one period.  The replayer
+   advances the frozen clock by 3 s per Advance with the default 5 s deadline,
+   so a heartbeat expires after two Advances without a new one.  Expiry is
+   noticed by the next evaluation (Purge), as in the code.
 
    The spec is written to the REPAIRED design.  The three leftovers of an old
    assembly that the unrepaired code kept (DESIGN 7 #17, #22, #26) are named
@@ -32,6 +35,8 @@ CONSTANTS W,          \* config.WorkerCount
           MaxFlaky,   \* bound on failing Deploy RPCs (liveness variant: only those of LIVE nodes are bounded)
           Boot,       \* workers 1..Boot are registered (and their assembly is being started) in the initial state
           MaxLen,     \* behaviour length (generation); large for exhaustive runs
+          Focus,      \* TRUE (targeted generation only): no idle heartbeats, faults strike members of the assembly
+          Faults,     \* subset of {"Kill", "Deregister"}: the fault actions that are enabled
           Live,       \* TRUE: liveness variant (no history, ids renormalised, fault budget MaxEv)
           Dev_PendingNotCleared, Dev_OpKeepsCheckpoint, Dev_SplitterAppended
 
@@ -112,6 +117,7 @@ EvObs(e) == [status |-> e.status, ops |-> SetSeq(e.reg.op), srs |-> SetSeq(e.reg
 \* HandleRegister{Operator,SourceRunner}: registration and heartbeat are the same RPC
 Register(n) ==
   /\ (Live \/ nev < MaxEv) /\ n \in alive
+  /\ Focus => (hb[n] < 2 \/ ~(IF n[1] = "op" THEN n[2] \in reg.op ELSE n[2] \in reg.sr))
   /\ LET r1 == IF n[1] = "op" THEN [reg EXCEPT !.op = @ \cup {n[2]}] ELSE [reg EXCEPT !.sr = @ \cup {n[2]}]
          h1 == [hb EXCEPT ![n] = now]
          e  == Eval(r1, h1, status, asm)
@@ -134,7 +140,8 @@ Gone(n) ==
 
 \* graceful stop of a node: it deregisters and exits
 Deregister(n) ==
-  /\ nev < MaxEv /\ n \in alive /\ (IF n[1] = "op" THEN n[2] \in reg.op ELSE n[2] \in reg.sr)
+  /\ "Deregister" \in Faults /\ nev < MaxEv /\ n \in alive /\ (IF n[1] = "op" THEN n[2] \in reg.op ELSE n[2] \in reg.sr)
+  /\ Focus => (n \in NodesOf(asm.ops, asm.srs) /\ status \in {"Starting", "Running"})
   /\ LET r1 == IF n[1] = "op" THEN [reg EXCEPT !.op = @ \ {n[2]}] ELSE [reg EXCEPT !.sr = @ \ {n[2]}]
          e  == Eval(r1, hb, status, asm)
      IN /\ ApplyEval(e)
@@ -145,7 +152,8 @@ Deregister(n) ==
 
 \* a node dies without a word (also during deployment / with a checkpoint open)
 Kill(n) ==
-  /\ nev < MaxEv /\ n \in alive /\ hb[n] # -1
+  /\ "Kill" \in Faults /\ nev < MaxEv /\ n \in alive /\ hb[n] # -1
+  /\ Focus => (n \in NodesOf(asm.ops, asm.srs) /\ status \in {"Starting", "Running"})
   /\ Gone(n)
   /\ nev' = nev + 1
   /\ Log([a |-> "Kill", kind |-> n[1], i |-> n[2], ctx |-> FaultCtx(n)])
@@ -313,7 +321,9 @@ Publish(id) ==
 -----------------------------------------------------------------------------
 Internal == StartAssembly \/ (\E n \in Node : DeployDone(n) \/ DeployFail(n))
             \/ (\E s \in Ids : SrCkpt(s)) \/ (\E m \in msgs : OpBarrier(m)) \/ (\E id \in publishing : Publish(id))
-External == (\E n \in Node : Register(n) \/ Deregister(n) \/ Kill(n)) \/ Advance \/ Tick
+\* targeted generation: a start() in flight finishes before the next event (except that a node may be killed meanwhile)
+Calm == Focus => st.ph = "none"
+External == (\E n \in Node : (Calm /\ (Register(n) \/ Deregister(n))) \/ Kill(n)) \/ Advance \/ (Calm /\ Tick)
 
 Next == Len(hist) < MaxLen /\ (Internal \/ External)
 
@@ -373,4 +383,6 @@ Terminal == ~ENABLED (Internal \/ External)
 Dump == (Len(hist) >= MaxLen \/ Terminal) => PrintT(<<"BEHAVIOUR", ToJson(hist)>>)
 \* states in which the (unrepaired) design is stuck behind a leftover: used with a Dev_* constant TRUE
 CexDump == (~NoLeftover /\ Len(hist) < MaxLen) => PrintT(<<"BEHAVIOUR", ToJson(hist)>>)
+\* shortest counterexample (breadth-first, with the VIEW): print the history of the first bad state and stop there
+CexStop == NoLeftover \/ ~PrintT(<<"BEHAVIOUR", ToJson(hist)>>)
 =============================================================================
